@@ -46,6 +46,22 @@ def _field_path(body, op, depth=0):
     return []
 
 
+def rule_no_follow(ctx, facts, prefix):
+    """the walk never follows symbolic links (so no file outside the tree is reached and no file is
+    listed twice under two paths)"""
+    f = facts.one(FIND)
+    if f is None:
+        return
+    follow = []
+    for b in [f] + facts.nested(f):
+        for c in b.calls:
+            if c.matches(r"walkdir::WalkDir::(follow_links|follow_root_links)$"):
+                k = op_const(c.args[1]) if len(c.args) > 1 else None
+                if not (k is not None and k.get("int") == 0):
+                    follow.append(c)
+    ctx.check(not follow, prefix, "follow-links", "symbolic links are never followed (%s)" % ([c.where() for c in follow] or "no follow_links call"), f.where())
+
+
 def run(ctx):
     facts = ctx.bin
     P = "C15-R1"
@@ -55,14 +71,7 @@ def run(ctx):
         if ctx.check(len(wd) == 1, P, "one-walk", "one directory walk (%d)" % len(wd), f.where()):
             fp = _field_path(f, wd[0].args[0])
             ctx.check(fp[-1:] == ["source_dir"], P, "walk-root", "the walk starts at config.source_dir (%s)" % fp, wd[0].where())
-        follow = []
-        for b in [f] + facts.nested(f):
-            for c in b.calls:
-                if c.matches(r"walkdir::WalkDir::(follow_links|follow_root_links)$"):
-                    k = op_const(c.args[1]) if len(c.args) > 1 else None
-                    if not (k is not None and k.get("int") == 0):
-                        follow.append(c)
-        ctx.check(not follow, P, "follow-links", "symbolic links are never followed (%s)" % ([c.where() for c in follow] or "no follow_links call"), f.where())
+        rule_no_follow(ctx, facts, P)
         # iterator chain of the loop
         nx = [c for c in f.calls_to(r"Iterator>::next$") if "walkdir" in c.full]
         if ctx.check(len(nx) == 1, P, "anchor|walk-loop", "the loop over the walk found", f.where()):
